@@ -955,10 +955,18 @@ func harnessC18world() {
 			}()
 			vAssert(<-done == 100, "C18: a brokered callback from the plugin reaches the host's server")
 		}
-		if nsrv := vChoice(3); nsrv > 0 { // the plugin serves one or two brokered servers, the host dials
+		if nsrv := vChoice(4); nsrv > 0 { // the plugin serves one or two brokered servers, the host dials
 			vCover("plugin-serves")
+			sameID := nsrv == 3 // two servers one after the other on the SAME ID, the first still serving
+			if sameID {
+				nsrv = 2
+				vCover("two-plugin-servers-one-id")
+			}
 			for k := 0; k < nsrv; k++ {
 				id, tag := uint32(12+2*k), 200+k
+				if sameID {
+					id = 12
+				}
 				go func() {
 					vSetProc(p.id)
 					pbk.AcceptAndServe(id, func(opts []grpc.ServerOption) *grpc.Server {
@@ -970,10 +978,16 @@ func harnessC18world() {
 				cc, err := hb.Dial(id)
 				vAssert(err == nil, "C18: the host dials the plugin's brokered server")
 				t, err := wWhoami(cc, ctx)
-				vAssert(err == nil && t == tag, "C18: a brokered call from the host reaches the plugin's server")
+				if sameID {
+					// two servers accepting on one ID at the same time: which of them gets a connection dialled for that ID is
+					// not specified (with multiplexing a dial racing with the second Accept is routed to the first listener)
+					vAssert(err == nil && (t == 200 || t == 201), "C18: a brokered call from the host reaches one of the plugin's servers on that ID")
+				} else {
+					vAssert(err == nil && t == tag, "C18: a brokered call from the host reaches the plugin's server")
+				}
 				cc.Close()
 			}
-			if nsrv == 2 {
+			if nsrv == 2 && !sameID {
 				vCover("two-plugin-servers")
 			}
 		}
@@ -1338,6 +1352,78 @@ func harnessC11secondHost() {
 	vDone()
 }
 
+// ---------------------------------------------------------------------------------------------- one ClientConfig, two clients
+// A host that keeps one *ClientConfig and builds a client from it for every launch (restart after a crash, a second
+// instance): go-plugin writes into that configuration during Start (Plugins, TLSConfig, VersionedPlugins), so the
+// second launch sees what the first left behind. The first plugin serves only version 1, the second only version 2;
+// the configuration offers version 1 through VersionedPlugins and version 2 through the legacy ProtocolVersion+Plugins
+// pair. Checked for the second launch as for the first: version and set (C02), environment (C17), trust pool (C12).
+func harnessSharedConfig() {
+	auto := vChoice(2) == 1
+	grpcMode := vChoice(2) == 1
+	plL, plV := &wPlug{}, &wPlug{}
+	cookie := HandshakeConfig{MagicCookieKey: wHandshake0.MagicCookieKey, MagicCookieValue: wHandshake0.MagicCookieValue}
+	mk := func(ver int) *wProc {
+		serve := &ServeConfig{HandshakeConfig: cookie, VersionedPlugins: map[int]PluginSet{ver: {"test": &wPlug{}}}, Logger: newWLogger()}
+		if grpcMode {
+			serve.GRPCServer = wNewGRPCServer
+		}
+		return newWProc(func() { Serve(serve) })
+	}
+	procs := []*wProc{mk(1), mk(2)}
+	var envs [][]string
+	hs := cookie
+	hs.ProtocolVersion = 2
+	cfg := &ClientConfig{
+		HandshakeConfig:  hs,
+		Plugins:          PluginSet{"test": plL},
+		VersionedPlugins: map[int]PluginSet{1: {"test": plV}},
+		Logger:           newWLogger(),
+		StartTimeout:     60 * time.Second,
+		AutoMTLS:         auto,
+		AllowedProtocols: []Protocol{ProtocolNetRPC, ProtocolGRPC},
+	}
+	wCertMangle = 0
+	cfg.RunnerFunc = func(l hclog.Logger, cmd *exec.Cmd, tmp string) (runner.Runner, error) {
+		p := procs[len(envs)]
+		envs = append(envs, cmd.Env)
+		for _, kv := range cmd.Env {
+			k, v, _ := wCut(kv)
+			if vIsConcrete(k) {
+				vSetenvProc(p.id, k, v)
+			}
+		}
+		return &wRunner{p: p}, nil
+	}
+	want := []*wPlug{plV, plL}
+	for i := 0; i < 2; i++ {
+		c := NewClient(cfg)
+		_, err := c.Start()
+		vAssert(err == nil, "C02: a launch whose version sets intersect starts (one ClientConfig, launch after launch)")
+		vAssert(c.NegotiatedVersion() == i+1, "C02: the client reports the common version as negotiated (one ClientConfig, launch after launch)")
+		vAssert(cfg.Plugins["test"] == Plugin(want[i]), "C02: the host uses the plugin set registered under the negotiated version, also when an earlier launch from the same ClientConfig negotiated another version")
+		_, hasCert := wEffective(envs[i], "PLUGIN_CLIENT_CERT")
+		vAssert(hasCert == auto, "C17: the child gets a client certificate exactly when AutoMTLS is on, on every launch from the same ClientConfig")
+		cp, err := c.Client()
+		vAssert(err == nil, "C14: the protocol client is built (one ClientConfig, launch after launch)")
+		raw, err := cp.Dispense("test")
+		vAssert(err == nil, "C14: Dispense works on every launch from the same ClientConfig")
+		_, err = raw.(wStub).Whoami()
+		vAssert(err == nil, "C14: a call works on every launch from the same ClientConfig")
+		if auto {
+			vAssert(cfg.TLSConfig != nil && cfg.TLSConfig.RootCAs != nil && len(wPoolG[cfg.TLSConfig.RootCAs]) == 1, "C12: the host trusts exactly the one certificate that came back in THIS launch's handshake (not those of earlier launches from the same ClientConfig)")
+			vAssert(cfg.TLSConfig.ClientCAs == nil || len(wPoolG[cfg.TLSConfig.ClientCAs]) == 1, "C12: host-side brokered listeners accept exactly this launch's plugin certificate")
+		}
+		if i == 0 {
+			vCover("first-launch")
+		} else {
+			vCover("second-launch")
+		}
+		c.Kill()
+	}
+	vDone()
+}
+
 // ---------------------------------------------------------------------------------------------- C19 / C20: concurrent use
 // Two goroutines use one Client at the same time, each performing one of the public operations; all schedules within
 // the reversal bound. Launch at most once; equal results; no panic; no data race inside go-plugin.
@@ -1486,7 +1572,14 @@ func harnessC16world() {
 		vCover("client-cert")
 	}
 	if versioned {
-		vSetenvProc(p.id, "PLUGIN_PROTOCOL_VERSIONS", "3,2")
+		if vChoice(2) == 1 {
+			// a launcher that sends a version list with an entry that is not a number ("3, 2" with a blank, a trailing
+			// comma, "v2"): the entry is ignored; whatever go-plugin has to say about it does not go to the real stdout
+			vCover("damaged-version-entry")
+			vSetenvProc(p.id, "PLUGIN_PROTOCOL_VERSIONS", "3,v2, 2,")
+		} else {
+			vSetenvProc(p.id, "PLUGIN_PROTOCOL_VERSIONS", "3,2")
+		}
 	}
 	p.launch()
 	vSleepUntil(sec)
